@@ -59,6 +59,11 @@ Theorem C19_chain_with_dangling : forall cfg st w p w1 u w2, get_pending cfg w =
   end_of_day cfg st w = (fst (eod_exchange cfg w2), {| s_txs := []; s_max := s_max st |}, snd (eod_exchange cfg w2)).
 Proof. exact cleanup_reversal_then_end_of_day. Qed.
 
+(* which dangling pre-authorisation is reversed: every receipt number the terminal reports, only the FFFF marker means none *)
+Theorem C19_pending_reports_receipt : forall ixa v r, field_of "zvt::packets::PartialReversalAbort" v 135 = Some (VSome (VInt r)) ->
+  fst (h_pending ixa tt ixa v) = Some (if r =? 65535 then ROk [] else ROk [r]).
+Proof. exact pending_reports_receipt. Qed.
+Print Assumptions C19_pending_reports_receipt.
 Print Assumptions C19_commit_busy_no_end_of_day.
 Print Assumptions C19_commit_idle_runs_cleanup.
 Print Assumptions C19_chain_stops_when_query_fails.
